@@ -133,6 +133,8 @@ func concJobs(sp space) []driver.Job {
 		{[]pusher{pGood, pShort}, false}, {[]pusher{pErr, pGood}, false},
 		{[]pusher{pGood, pLong}, false}, {[]pusher{pWrong, pShort}, false},
 		{[]pusher{pWrong, pGood}, true}, {[]pusher{pGood, pErr}, true},
+		// only bad pushes, watched by an observer: nothing may be visible at any moment
+		{[]pusher{pWrong, pShort}, true}, {[]pusher{pErr}, true},
 	}
 	three := []mix{
 		{[]pusher{pGood, pWrong, pGood}, false},
@@ -250,7 +252,10 @@ func concRun(c *driver.Ctx, kind string, m mix) (func(), func(*vs.Result) *drive
 			return f
 		}
 		var rs, cls []string
-		anyOK := false
+		anyOK, anyGood := false, false
+		for _, p := range m.ps {
+			anyGood = anyGood || !p.mustFail
+		}
 		for i, p := range m.ps {
 			rs = append(rs, fmt.Sprintf("g%d push(%s)=%v", i, p.name, errs[i]))
 			cls = append(cls, errClass(errs[i]))
@@ -278,6 +283,9 @@ func concRun(c *driver.Ctx, kind string, m mix) (func(), func(*vs.Result) *drive
 				}
 				return &driver.Fail{Sig: kind + ": Fetch handed back bytes that do not match the descriptor " + when,
 					Detail: fmt.Sprintf("%s\n%s, descriptor #%d: %s", detail, o.who, o.d, o.v)}
+			}
+			if !anyGood && o.v.visible() {
+				return &driver.Fail{Sig: kind + ": content visible while only pushes of mismatching content were under way", Detail: fmt.Sprintf("%s\n%s, descriptor #%d: %s", detail, o.who, o.d, o.v)}
 			}
 			if o.who == "final" && !anyOK && o.v.visible() {
 				return &driver.Fail{Sig: kind + ": content visible although every push failed", Detail: fmt.Sprintf("%s\ndescriptor #%d: %s", detail, o.d, o.v)}
